@@ -337,6 +337,22 @@ func sfeVerifyInput(tx *transaction.Transaction, k int, prevs []*transaction.TxO
 	return "unknown-template"
 }
 
+// a multisig script in which the bytes of some key first occur before that key's own push
+func sfeAmbiguousKeys(script []byte) bool {
+	_, keys, ok := sfeParseMultisig(script)
+	if !ok {
+		return false
+	}
+	off := 1
+	for _, k := range keys {
+		if bytes.Index(script, k) != off+1 {
+			return true
+		}
+		off += 1 + len(k)
+	}
+	return false
+}
+
 // ---------------------------------------------------------------- what an input needs
 
 type sfeView struct {
@@ -460,7 +476,13 @@ func sfeCheckFinalized(c *sfeCase, k int, v *sfeView, valid func(k int, pk, sig 
 	return "", allValid
 }
 
-func checkSfe(t *Toks, v2 bool) string {
+// a panic inside a role function is a robustness defect (C12), not a statement about C09
+func checkSfe(t *Toks, v2 bool) (res string) {
+	defer func() {
+		if e := recover(); e != nil {
+			res = "SKIP impl-panic"
+		}
+	}()
 	c := sfeReadCase(t, v2)
 	valid := func(k int, pk, sig []byte) bool {
 		for _, o := range c.orc {
@@ -494,6 +516,7 @@ func checkSfe(t *Toks, v2 bool) string {
 	// inputs finalized by the library during this run with valid signatures only
 	goodFinal := make([]bool, nin)
 	names := make([]string, nin)
+	msScripts := make([][]byte, nin)
 	for j := range c.ops {
 		op := &c.ops[j]
 		before := views()
@@ -568,6 +591,10 @@ func checkSfe(t *Toks, v2 bool) string {
 				if !before[k].final && after[k].final {
 					if pv := c.prevout(k); pv != nil {
 						names[k], _ = sfeRequired(pv.Script, &before[k])
+						msScripts[k] = before[k].rs
+						if len(before[k].ws) > 0 {
+							msScripts[k] = before[k].ws
+						}
 					}
 					verdict, ok := sfeCheckFinalized(c, k, &before[k], valid)
 					if verdict != "" {
@@ -598,6 +625,9 @@ func checkSfe(t *Toks, v2 bool) string {
 			}
 			for k := 0; k < nin; k++ {
 				if why := sfeVerifyInput(tx, k, prevs); why != "" {
+					if why == "multisig-order" && sfeAmbiguousKeys(msScripts[k]) {
+						return sfeFail("unsatisfied-ambiguous-keys", fmt.Sprintf("%s-%s", ver, names[k]))
+					}
 					return sfeFail("unsatisfied", fmt.Sprintf("%s-%s-%s", ver, names[k], why))
 				}
 			}
